@@ -211,6 +211,15 @@ pub fn run(ctx: &mut Ctx) {
         }
     }
 
+    // jekyll's `sort` parses its property argument as a variable path: strings that are not one
+    {
+        let a = arr(vec![obj(&[("p", i(2))]), obj(&[("p", i(1))]), obj(&[("q", i(0))])]);
+        for p in ["", " ", "1", "1x", "p.", "p[", "p q", "é", "-", "p..q", "[0]", "'p'", "p[0", "nil", "true"] {
+            g.case("jekyll-sort-property", "jekyll_sort", &a, &[s(p)]);
+            g.case("jekyll-sort-property", "jekyll_sort", &a, &[s(p), s("last")]);
+        }
+    }
+
     // ---- comparators that stay inconsistent after the repair, because `partial_cmp` itself is
     // inconsistent within one kind (C11 territory): fixed witnesses, judged by the spec only ----
     let residual: Vec<(&str, Vec<Value>)> = vec![
